@@ -233,6 +233,11 @@ class RollingApply(RollingReduction):
 class RollingCov(RollingReduction):
     how = "cov"
 
+    def _simplify_up(self, parent, dependents):
+        # The pairwise covariance has one row per input column in every window,
+        # so dropping input columns would drop rows of the selected columns
+        return
+
 
 class Rolling:
     """Aggregate using one or more operations
